@@ -13,6 +13,7 @@ pub mod c14;
 pub mod c15;
 pub mod c16;
 pub mod c17;
+pub mod c25;
 pub mod c36;
 
 pub fn run(ctx: &Ctx, id: &str) -> bool {
@@ -30,6 +31,7 @@ pub fn run(ctx: &Ctx, id: &str) -> bool {
         "C15" => c15::run(ctx),
         "C16" => c16::run(ctx),
         "C17" => c17::run(ctx),
+        "C25" => c25::run(ctx),
         "C36" => c36::run(ctx),
         _ => return false,
     }
